@@ -134,7 +134,7 @@ def I5(S):
 # ---------------------------------------------------------------------------------------------- memo plumbing
 
 
-@contract("Vertex._qa_neighbors_get", "self:Vertex, d:int, u:int, f:cb:ff2", props=("C05", "C04", "C10"))
+@contract("Vertex._qa_neighbors_get", "self:Vertex, d:int, u:int, f:cb:ff2", props=("C05", "C04", "C10", "C06", "C07", "C08"))
 def _(c):
     S, v = c.S, c.self
     c.requires(memo_wf_at(S, v, c.d, c.u, c.f), "memo-entry-is-a-list")
@@ -146,7 +146,7 @@ def _(c):
     stats_monotone(o2)
 
 
-@contract("Vertex._qa_neighbors_insert", "self:Vertex, answer:list:Vertex, d:int, u:int, f:cb:ff2", props=("C05", "C04", "C10"))
+@contract("Vertex._qa_neighbors_insert", "self:Vertex, answer:list:Vertex, d:int, u:int, f:cb:ff2", props=("C05", "C04", "C10", "C06", "C07", "C08"))
 def _(c):
     S, v = c.S, c.self
     ans = c.val("answer").ref
@@ -160,7 +160,7 @@ def _(c):
 
 
 @contract("helpers.neighbors", "vert:Vertex, direction_sensitive:int=0, unknown_handling:int=2, filterfunc:cb:ff2=None",
-          props=("C04", "C05", "C11", "C12", "C13"), shards=6)
+          props=("C04", "C05", "C06", "C07", "C08", "C11", "C12", "C13"), shards=6)
 def _(c):
     S, x, d, u, f = c.S, c.vert, c.direction_sensitive, c.unknown_handling, c.filterfunc
     ct = c.ct
